@@ -14,7 +14,7 @@
         nni            (k n) (undo b)             k-th proposal (modulo their number), Apply (then Undo)
         nni_hold       (k n)                      Apply of the k-th proposal, the rearrangement object is KEPT
         nni_release                               Undo of the kept rearrangement (nothing when none is alive);
-                                                  the object stays alive across sort / rotate steps only
+                                                  the object stays alive across sort / rotate / reroot steps only
         rename         (tip SEL) (to "new")       Tree.Rename({old: new})
         subtree        (sel inner|node) (i n)
       SEL = (tip k)    the k-th tip of Tips() (modulo)     | (lit "name")
@@ -280,7 +280,7 @@ Definition finish (o : sexp) (origs : list utree) (nok nin nstates : nat) (tag :
 Definition b2n (b : bool) : nat := if b then 1 else 0.
 
 Definition keeps_handle (name : string) : bool :=
-  String.eqb name "sort" || String.eqb name "rotate" || String.eqb name "nni_release".
+  String.eqb name "sort" || String.eqb name "rotate" || String.eqb name "reroot" || String.eqb name "nni_release".
 
 (** [held]: a rearrangement object is alive and [t] carries the markers of Model/HistoryHold.v *)
 Fixpoint walk (o : sexp) (i : nat) (t : utree) (held : bool) (origs : list utree) (nin nstates : nat)
@@ -356,7 +356,13 @@ Fixpoint walk (o : sexp) (i : nat) (t : utree) (held : bool) (origs : list utree
                           | Err m => (Err m, false, None)
                           end)
                   else if String.eqb name "nni_release" then
-                    Some (if held then (hold_undo t, false, None) else (Ok t, false, None))
+                    Some (if held then
+                            match hold_undo t with
+                            | Ok (Some t') => (Ok t', false, None)
+                            | Ok None => (Ok t, false, Some (Err "unmodelled"))
+                            | Err m => (Err m, false, None)
+                            end
+                          else (Ok t, false, None))
                   else
                     op <- dec_op name t c so ;;
                     Some (run_op op t, held,
@@ -372,6 +378,14 @@ Fixpoint walk (o : sexp) (i : nat) (t : utree) (held : bool) (origs : list utree
                        | None => VCorr (pre ++ "the model refuses (" ++ m ++ "), the implementation succeeds")
                        end
                 | Ok tm' =>
+                  if String.eqb name "nni_release" && match midm with Some (Err _) => true | _ => false end then
+                    (* the root sits in the clade that Apply moved: outside the model, the oracle applies *)
+                    if refused then stopped ("stop@nni_release:unmodelled")
+                    else match check_state_unmodelled (pre ++ "(Undo after a re-rooting into the moved clade) ") so with
+                         | inl v => v
+                         | inr (g, b) => walk o (S i) g false origs (nin + b2n b) (nstates + 1) ops' steps'
+                         end
+                  else
                   let t' := if held' then strip_marks tm' else tm' in
                   if refused then VCorr (pre ++ "the implementation refuses: " ++ gerr ++ " / model: " ++ show_utree t')
                   else
